@@ -207,15 +207,16 @@ func (e *Engine) RenderTo(w io.Writer, name string, context map[string]interface
 
 // Load loads a template by name
 func (e *Engine) Load(name string) (*Template, error) {
-	// Only check the cache if caching is enabled
-	if e.environment.cache {
-		// Use a quick check under read lock first to avoid contention
-		e.mu.RLock()
-		tmpl, ok := e.templates[name]
-		e.mu.RUnlock()
+	// Use a quick check under read lock first to avoid contention
+	e.mu.RLock()
+	tmpl, ok := e.templates[name]
+	e.mu.RUnlock()
 
-		// If template exists in cache
-		if ok {
+	// A registered template (it has no loader) is the only copy of its source
+	// and is served whatever the cache setting; anything else is a cache entry
+	// and only used if caching is enabled
+	if ok && (e.environment.cache || tmpl.loader == nil) {
+		{
 			// If auto-reload is disabled, return the cached template immediately
 			if !e.autoReload {
 				return tmpl, nil
@@ -344,12 +345,11 @@ func (e *Engine) RegisterString(name string, source string) error {
 		loader:       nil, // String templates don't have a loader
 	}
 
-	// Only cache if caching is enabled
-	if e.environment.cache {
-		e.mu.Lock()
-		e.templates[name] = template
-		e.mu.Unlock()
-	}
+	// A registration is kept whatever the cache setting: there is no loader
+	// to read the source from again
+	e.mu.Lock()
+	e.templates[name] = template
+	e.mu.Unlock()
 
 	return nil
 }
@@ -399,12 +399,10 @@ func (e *Engine) RegisterTemplate(name string, template *Template) {
 		template.lastModified = time.Now().Unix()
 	}
 
-	// Only cache if caching is enabled
-	if e.environment.cache {
-		e.mu.Lock()
-		e.templates[name] = template
-		e.mu.Unlock()
-	}
+	// A registration is kept whatever the cache setting
+	e.mu.Lock()
+	e.templates[name] = template
+	e.mu.Unlock()
 }
 
 // CompileTemplate compiles a template for faster rendering
